@@ -147,7 +147,7 @@ class EvDomain(Domain):
         base = q.split('::')[-1]
         args = n.ns('args')
         obj = n.n('object')
-        if obj is None and n.ck == 'op' and n.mclass and args: obj = args[0]; args = args[1:]
+        if obj is None and n.ck == 'op' and ('mclass' in n.d) and args: obj = args[0]; args = args[1:]
         on = self.resolve_obj(ex, obj, st, fr)
         vals = [ex._rvalue(a, st, fr) if a is not None else None for a in args]
         if n.virtual and not n.qualified:
